@@ -253,7 +253,7 @@ pub fn run_batch(check: &dyn Check, tier: Tier, seed: u64) -> i32 {
     if let Some((index, v)) = &new_violation {
         let rs = run_seed(seed, prop, *index);
         let plan = check.generate(rs, *index, tier);
-        let (min_plan, min_v, minimised, tried) = minimise(check, &plan, v, 90);
+        let (min_plan, min_v, minimised, tried) = minimise(check, &plan, v, 25);
         let path = write_replay(check, seed, *index, rs, &min_plan, &min_v, minimised);
         // Replay the written file in a fresh process; fall back to the
         // unminimised plan if the minimised one does not reproduce there.
